@@ -74,7 +74,16 @@ def run_loader(case: dict, d: str, do_parse: bool = True, do_load: bool = True, 
     import tracegen
     from hta.common.trace import Trace
     paths = tracegen.write_case(case, d)
-    out: Dict[str, Any] = {}
+    # rank -> file dictionaries are handed over in a case-determined shuffled key order, and a third of the
+    # multi-rank cases go through the process pool (the public default)
+    import random as _r
+    rr = _r.Random(case.get("seed", 0) * 31 + case.get("case_no", 0))
+    keys = list(paths.keys())
+    rr.shuffle(keys)
+    paths = {k: paths[k] for k in keys}
+    if len(keys) > 1 and rr.random() < 0.35:
+        mp_flag = True
+    out: Dict[str, Any] = {"mp": mp_flag, "key_order": keys}
     incl = bool(case["params"].get("include_last", False))
     if do_parse:
         try:
